@@ -57,7 +57,8 @@ def generate(streams, tier):
             # the metric wrapper is called repeatedly on the one frame object with varying options
             ops.append({"op": "wrapper", "score": rw.choice(["k2", "bdeu", "bdeu", "bds", "bic"]), "dag": _rand_dag(rw, n),
                         "ess": rw.choice([None, None, 1, 2.5, 5, 10, 0.5, 20])})
-    return {"world": world, "rows": rows, "declared": declared, "ess": ess, "cache_size": cache_size, "permseed": rw.randrange(2**31), "ops": ops}
+    return {"world": world, "rows": rows, "declared": declared, "ess": ess, "cache_size": cache_size, "permseed": rw.randrange(2**31), "ops": ops,
+            "spare_category": rw.random() < 0.5}
 
 
 def _rand_dag(r, n):
@@ -156,7 +157,10 @@ def execute(case, ctx):
     names = Names(world)
     n = world["n"]
     card = world["card"]
-    df = make_frame(world, names, rows)
+    spare = (not case["declared"]) and case.get("spare_category", False)
+    if spare:
+        ctx.probe("categorical_dtype_with_unused_category")
+    df = make_frame(world, names, rows, spare_category=spare)
     sn = {names.L(v): list(names.states[v]) for v in range(n)} if case["declared"] else None
     ess = case["ess"]
     ctx.fault("relabel")
@@ -167,7 +171,7 @@ def execute(case, ctx):
     rp.shuffle(idx)
     cols = list(range(n))
     rp.shuffle(cols)
-    df_perm = make_frame(world, names, [rows[j] for j in idx], columns=cols)
+    df_perm = make_frame(world, names, [rows[j] for j in idx], columns=cols, spare_category=spare)
     plain = {}
     caches = {}
     perm = {}
